@@ -130,7 +130,10 @@ def work(item):
             outs.append(der)
         return outs
 
-    for ctx, (kind, val) in symx.explore(body, timeout_ms=60000):
+    for ctx, (kind, val) in budgeted(symx.explore(body, timeout_ms=60000, maxpaths=64)):
+        if kind == 'budget':
+            res['inconclusive'].append('parallel gradient: more than 64 paths (data-dependent branching on the potential) %r' % (item[:7],))
+            break
         if kind != 'ok':
             if kind == 'abort' and not val.inconclusive:
                 continue
@@ -178,7 +181,11 @@ def work(item):
         elif r_ == 'sat':
             mdl = ctx.model()
             hits = [wh for wh, b in zip(where, bad) if z3.is_true(mdl.eval(b, model_completion=True))][:3]
-            prob = float_replay(m, adv, item, rvals, twists, dz, qbreaks, T)
+            try:
+                pv = [[float(Fr(symx.model_value(mdl, phi[k, q]))) for q in range(nq)] for k in range(nz)]
+            except Exception:
+                pv = None
+            prob = (float_replay(m, adv, item, rvals, twists, dz, qbreaks, T, pv) if pv is not None else None) or float_replay(m, adv, item, rvals, twists, dz, qbreaks, T)
             rep = dict(kind='pargrad', item=[str(x) for x in item[:7]], where=str(hits), concrete=prob, canary=bool(canary))
             key = 'pargrad:%s' % ('radius_dependent_iota_local_index' if (twist_mode == 'radial' and st.get('rstart', 0) > 0) else 'general')
             if prob:
@@ -200,7 +207,22 @@ def work(item):
 _REPLAY_N = [0]
 
 
-def float_replay(m, adv, item, rvals, twists, dz, qbreaks, T):
+def budgeted(gen):
+    """the exploration, ended by one ('budget', ...) entry instead of an exception when it runs out of its path budget"""
+    while True:
+        try:
+            yield next(gen)
+        except StopIteration:
+            return
+        except RuntimeError as e:
+            if 'path budget' not in str(e):
+                raise
+            yield None, ('budget', e)
+            return
+
+
+
+def float_replay(m, adv, item, rvals, twists, dz, qbreaks, T, phi_values=None):
     """real float code vs. the oracle formula in floats on a random potential"""
     order, nz, nq, tdeg, tpath, lay, twist_mode = item[:7]
     pre_orders = item[9] if len(item) > 9 else ()
@@ -232,6 +254,8 @@ def float_replay(m, adv, item, rvals, twists, dz, qbreaks, T):
         pg = adv.ParallelGradient(fb, eta, L, FC, order)
         rng = np.random.RandomState(7)
         phi = rng.rand(nz, nq) * 2 - 1
+        if phi_values is not None:
+            phi = np.array(phi_values, dtype=float).reshape(nz, nq)          # the solver's potential
         shifts, w = fd_weights(order)
         qf = [Fr(q).limit_denominator(10 ** 12) for q in qpts]
         coefs = [SO.interpolant_coeffs(T, tdeg, True, nq, qf, [Fr(x).limit_denominator(10 ** 12) for x in phi[k]]) for k in range(nz)]
